@@ -401,7 +401,9 @@ pub fn child_main(arg: &str, target: &str) -> i32 {
             Outcome::Ok(q) => q,
             _ => return 4,
         };
-        let prev = format!("{target}.earlier");
+        // odd variants write the earlier rendering to the SAME path (re-export over the previous export: same length
+        // and same beginning when only a colour changed), even ones to a sibling path
+        let prev = if c.k % 2 == 1 { target.to_string() } else { format!("{target}.earlier") };
         let r0 = adapter::guarded(|| if c.png { spec0.image_builder().to_file(&qr0, &prev).is_ok() } else { spec0.svg_builder().to_file(&qr0, &prev).is_ok() });
         if r0 != Ok(true) {
             println!("PANIC earlier write failed: {r0:?}");
@@ -448,7 +450,7 @@ pub fn run(ctx: &Ctx) -> Report {
     st.sets.remove("unreached");
     let mut rep = Report::new(
         st,
-        "cases = {SVG, PNG} x versions {1,7,40} (thorough: all 40) x option sets x fault classes: none; destination already exists (6 MiB longer file, 5-byte shorter file, symbolic link to a longer file, longer file + short writes): Ok must leave exactly the rendering, no stale tail; SVG documents padded (through the image string) to exactly 4096, 8191, 8192, 8193, 16384, 32768, 65535, 65536, 65537, 131072, 196608, 262144 bytes, also under short writes; the same process has just written another rendering to another path (identical / same symbol with one size-deciding option changed / bigger symbol / other colour); real faults: missing directory (ENOENT), path is a directory (EISDIR), parent is a regular file (ENOTDIR), over-long name (ENAMETOOLONG), paths without a file-name component (dir/., dir/sub/.., dir/x/.., the empty path), /dev/full (ENOSPC at write time); injected by an LD_PRELOAD shim scoped to the case's scratch directory: create fails with EACCES/EROFS/EMFILE, first write fails with ENOSPC/EIO/EDQUOT, k-th write of a chunked stream fails (k in 2,3,5,9; 1024-byte chunks; 7-byte chunks), every write short (7 / 4096 bytes), EINTR on every other write (with and without short writes); each case runs to_file in a child process; the shim logs every interception and every fault actually DELIVERED; oracle: Ok(()) => the file's bytes equal the in-memory rendering computed in the same child; a delivered hard fault => Err(_) converted through ConvertError::from, normal exit, no panic; only benign perturbations => Ok with full content; a configured fault that was never reached is counted separately and is not a pass for the error half; distinct key = case; every case non-trivial",
+        "cases = {SVG, PNG} x versions {1,7,40} (thorough: all 40) x option sets x fault classes: none; destination already exists (6 MiB longer file, 5-byte shorter file, symbolic link to a longer file, longer file + short writes): Ok must leave exactly the rendering, no stale tail; SVG documents padded (through the image string) to exactly 4096, 8191, 8192, 8193, 16384, 32768, 65535, 65536, 65537, 131072, 196608, 262144 bytes, also under short writes; the same process has just written another rendering to the same or to another path (identical / same symbol with one size-deciding option changed / bigger symbol / other colour); real faults: missing directory (ENOENT), path is a directory (EISDIR), parent is a regular file (ENOTDIR), over-long name (ENAMETOOLONG), paths without a file-name component (dir/., dir/sub/.., dir/x/.., the empty path), /dev/full (ENOSPC at write time); injected by an LD_PRELOAD shim scoped to the case's scratch directory: create fails with EACCES/EROFS/EMFILE, first write fails with ENOSPC/EIO/EDQUOT, k-th write of a chunked stream fails (k in 2,3,5,9; 1024-byte chunks; 7-byte chunks), every write short (7 / 4096 bytes), EINTR on every other write (with and without short writes); each case runs to_file in a child process; the shim logs every interception and every fault actually DELIVERED; oracle: Ok(()) => the file's bytes equal the in-memory rendering computed in the same child; a delivered hard fault => Err(_) converted through ConvertError::from, normal exit, no panic; only benign perturbations => Ok with full content; a configured fault that was never reached is counted separately and is not a pass for the error half; distinct key = case; every case non-trivial",
     );
     rep.level = "fault_enumeration";
     rep.expected_sets = vec![("fault_classes", 21), ("fault_class_x_format", 40)];
